@@ -29,6 +29,6 @@ def trc(ctx):
                          "genjax.core.Tr", "genjax.core.ScanTr", "genjax.core.Simulate", "genjax.core.Assess", "genjax.core.Generate", "genjax.core.Update", "genjax.core.Regenerate"])
 
 
-RULES = [trc, gfi.dist_simulate, gfi.dist_assess, gfi.collision_helpers, handlers, fns, gfi.handler_stack_ownership, gfi.address_glue, combs,
+RULES = [trc, gfi.dist_simulate, gfi.dist_assess, gfi.collision_helpers, handlers, fns, gfi.handler_stack_ownership, gfi.address_glue, lambda ctx: gfi.density_reduction(ctx, ['Assess']), combs,
          gfi.cond_trace_rules, gfi.trace_accessors, gfi.merge_polarity, gfi.vmap_kwargs_sig]
 FLOOR = 20
